@@ -24,7 +24,7 @@ CONSTANTS
   NPre, NPost, NPc,             \* number of pre_recycle / post_recycle / post_create hooks
   AsyncPre, AsyncPost, AsyncPc, \* indices of the hooks registered with Hook::async_fn
   GetModes,       \* subset of {"nb","bl","timed"}: wait = Some(0) / None / Some(finite)
-  CreateTO, RecycleTO,          \* "none" | "zero" | "finite" : create / recycle timeout in effect
+  CreateTO, RecycleTO,          \* sets of per-call create / recycle timeouts: subsets of {"none", "zero", "finite"}
   HasRuntime,     \* a Runtime was given to the builder
   ResizeTargets,  \* arguments resize() may be called with ({} = no resize)
   AllowClose, AllowRetain, AllowTake, AllowDropPool,
@@ -49,7 +49,7 @@ VARIABLES
   \* per task: location, object in hand, wait mode, argument, counter (hook index /
   \* permits left to retire or add), current call returned Pending, result of the
   \* current / last operation, steps passed by the object in hand
-  pc, obj, mode, arg, cnt, susp, res, chain,
+  pc, obj, mode, cto, rto, arg, cnt, susp, res, chain,   \* cto / rto: this call's create / recycle timeout
   \* per object: Metrics::recycle_count, Metrics::recycled.is_some()
   rc, rec,
   \* ground truth / environment (never read by an implementation action)
@@ -65,7 +65,7 @@ VARIABLES
 
 sem   == <<permits, closed, waitq, handed>>
 slots == <<idle, size, creating, maxSize, lock>>
-tv    == <<pc, obj, mode, arg, cnt, susp, res, chain>>
+tv    == <<pc, obj, mode, cto, rto, arg, cnt, susp, res, chain>>
 ov    == <<rc, rec>>
 gv    == <<held, nextObj, alive, det, taken, ho, orphan, late, budget, poolGone, closeRet, panicked>>
 vars  == <<sem, slots, users, tv, ov, gv, running>>
@@ -79,7 +79,7 @@ Init ==
   /\ idle = <<>> /\ size = 0 /\ creating = 0 /\ maxSize = InitMax /\ lock = NoTask
   /\ users = 0
   /\ pc = [t \in Tasks |-> "idle"] /\ obj = [t \in Tasks |-> NoObj]
-  /\ mode = [t \in Tasks |-> "bl"] /\ arg = [t \in Tasks |-> 0] /\ cnt = [t \in Tasks |-> 0]
+  /\ mode = [t \in Tasks |-> "bl"] /\ cto = [t \in Tasks |-> "none"] /\ rto = [t \in Tasks |-> "none"] /\ arg = [t \in Tasks |-> 0] /\ cnt = [t \in Tasks |-> 0]
   /\ susp = [t \in Tasks |-> FALSE] /\ res = [t \in Tasks |-> "none"]
   /\ chain = [t \in Tasks |-> <<>>]
   /\ rc = [o \in Objs |-> 0] /\ rec = [o \in Objs |-> FALSE]
@@ -153,9 +153,10 @@ Tag(stage, i) == IF stage \in {"recycle", "create"} THEN stage ELSE stage \o ToS
 ----------------------------------------------------------------------------
 (* get() / timeout_get()                                                   *)
 
-StartGet(t, m) ==
-  /\ pc[t] = "idle" /\ ~poolGone /\ m \in GetModes /\ Spend
+StartGet(t, m, c, r) ==
+  /\ pc[t] = "idle" /\ ~poolGone /\ m \in GetModes /\ c \in CreateTO /\ r \in RecycleTO /\ Spend
   /\ Goto(t, "g_users") /\ mode' = [mode EXCEPT ![t] = m] /\ SetRes(t, "none")
+  /\ cto' = [cto EXCEPT ![t] = c] /\ rto' = [rto EXCEPT ![t] = r]
   /\ late' = [late EXCEPT ![t] = closeRet]
   /\ UNCHANGED <<sem, slots, users, obj, arg, cnt, susp, chain, ov, held, nextObj, alive, det, taken, ho, orphan, poolGone, closeRet, panicked>>
   /\ Sched(t)
@@ -163,10 +164,10 @@ StartGet(t, m) ==
 \* users.fetch_add; then the per-call recycle timeout is checked against the runtime
 GUsers(t) ==
   /\ pc[t] = "g_users" /\ users' = users + 1
-  /\ IF RecycleTO # "none" /\ ~HasRuntime
+  /\ IF rto[t] # "none" /\ ~HasRuntime
      THEN Goto(t, "x_users") /\ SetRes(t, "no_runtime")
      ELSE Goto(t, "g_acq") /\ UNCHANGED res
-  /\ UNCHANGED <<sem, slots, obj, mode, arg, cnt, susp, chain, ov, gv>>
+  /\ UNCHANGED <<sem, slots, obj, mode, cto, rto, arg, cnt, susp, chain, ov, gv>>
   /\ Sched(t)
 
 \* try_acquire() (non-blocking) or first poll of acquire()
@@ -181,7 +182,7 @@ GAcq(t) ==
      ELSE IF mode[t] = "nb"
      THEN Goto(t, "x_users") /\ SetRes(t, "timeout_wait") /\ UNCHANGED sem
      ELSE waitq' = Append(waitq, t) /\ Goto(t, "g_wait") /\ UNCHANGED <<res, permits, closed, handed>>
-  /\ UNCHANGED <<slots, users, obj, mode, arg, cnt, susp, chain, ov, gv>>
+  /\ UNCHANGED <<slots, users, obj, mode, cto, rto, arg, cnt, susp, chain, ov, gv>>
   /\ Sched(t)
 
 \* the waiter was woken (permit assigned, or semaphore closed) and is polled again
@@ -190,14 +191,14 @@ GWaitPoll(t) ==
   /\ IF closed
      THEN /\ SemDropWaiter(t) /\ Goto(t, "x_users") /\ SetRes(t, "closed")
      ELSE /\ handed' = handed \ {t} /\ Goto(t, "g_pop") /\ UNCHANGED <<res, permits, closed, waitq>>
-  /\ UNCHANGED <<slots, users, obj, mode, arg, cnt, susp, chain, ov, gv>>
+  /\ UNCHANGED <<slots, users, obj, mode, cto, rto, arg, cnt, susp, chain, ov, gv>>
   /\ Sched(t)
 
 \* the get() future is dropped while waiting for a permit
 GWaitCancel(t) ==
   /\ AllowCancel /\ pc[t] = "g_wait"
   /\ SemDropWaiter(t) /\ Goto(t, "x_users") /\ SetRes(t, "cancelled")
-  /\ UNCHANGED <<slots, users, obj, mode, arg, cnt, susp, chain, ov, gv>>
+  /\ UNCHANGED <<slots, users, obj, mode, cto, rto, arg, cnt, susp, chain, ov, gv>>
   /\ Sched(t)
 
 \* the wait deadline passes and the future is polled: tokio's timeout polls the
@@ -205,7 +206,7 @@ GWaitCancel(t) ==
 GWaitExpire(t) ==
   /\ pc[t] = "g_wait" /\ mode[t] = "timed" /\ t \notin handed /\ ~closed
   /\ SemDropWaiter(t) /\ Goto(t, "x_users") /\ SetRes(t, "timeout_wait")
-  /\ UNCHANGED <<slots, users, obj, mode, arg, cnt, susp, chain, ov, gv>>
+  /\ UNCHANGED <<slots, users, obj, mode, cto, rto, arg, cnt, susp, chain, ov, gv>>
   /\ Sched(t)
 
 \* lock; pop an idle object, or reserve a slot for a new one, or find the permit stale
@@ -219,14 +220,14 @@ GPop(t) ==
           /\ UNCHANGED <<creating, res>>
      ELSE IF size + creating < maxSize
      THEN /\ creating' = creating + 1
-          /\ IF CreateTO # "none" /\ ~HasRuntime
+          /\ IF cto[t] # "none" /\ ~HasRuntime
              THEN Goto(t, "c_unres") /\ SetRes(t, "no_runtime")   \* create() is never polled
              ELSE Goto(t, "create") /\ UNCHANGED res
           /\ UNCHANGED <<idle, obj, cnt>>
      ELSE \* stale permit: forget it and ask again
           /\ Goto(t, "g_acq") /\ UNCHANGED <<idle, obj, cnt, creating, res>>
   /\ chain' = [chain EXCEPT ![t] = <<>>]
-  /\ UNCHANGED <<sem, size, maxSize, lock, users, mode, arg, susp, ov, gv>>
+  /\ UNCHANGED <<sem, size, maxSize, lock, users, mode, cto, rto, arg, susp, ov, gv>>
   /\ Sched(t)
 
 \* --- manager / hook calls ------------------------------------------------
@@ -266,7 +267,7 @@ Outcomes(t) ==
   {"ok"} \cup (IF AllowFail THEN {"err"} ELSE {}) \cup (IF AllowPanic THEN {"panic"} ELSE {})
          \cup (IF AllowSuspend /\ IsAsync(pc[t], cnt[t]) THEN {"susp"} ELSE {})
 
-ZeroTO(t) == HasRuntime /\ ((pc[t] = "create" /\ CreateTO = "zero") \/ (pc[t] = "recycle" /\ RecycleTO = "zero"))
+ZeroTO(t) == HasRuntime /\ ((pc[t] = "create" /\ cto[t] = "zero") \/ (pc[t] = "recycle" /\ rto[t] = "zero"))
 
 \* the call is entered (first poll) and decides at once, or returns Pending
 Call(t, out) ==
@@ -278,7 +279,7 @@ Call(t, out) ==
        [] out = "ok" /\ pc[t] = "create" -> CreateOk(t) /\ UNCHANGED <<susp, cnt, res, ov>>
        [] out = "ok" /\ pc[t] # "create" -> Advance(t) /\ UNCHANGED <<susp, obj, nextObj, alive>>
        [] OTHER -> Fail(t, out) /\ UNCHANGED <<susp, obj, nextObj, alive>>
-  /\ UNCHANGED <<sem, slots, users, mode, arg, held, det, taken, ho, orphan, late, budget, poolGone, closeRet, panicked>>
+  /\ UNCHANGED <<sem, slots, users, mode, cto, rto, arg, held, det, taken, ho, orphan, late, budget, poolGone, closeRet, panicked>>
   /\ Sched(t)
 
 \* a suspended call completes and the future is polled again
@@ -288,23 +289,23 @@ Resume(t, out) ==
   /\ CASE out = "ok" /\ pc[t] = "create" -> CreateOk(t) /\ UNCHANGED <<cnt, res, ov>>
        [] out = "ok" /\ pc[t] # "create" -> Advance(t) /\ UNCHANGED <<obj, nextObj, alive>>
        [] OTHER -> Fail(t, out) /\ UNCHANGED <<obj, nextObj, alive>>
-  /\ UNCHANGED <<sem, slots, users, mode, arg, held, det, taken, ho, orphan, late, budget, poolGone, closeRet, panicked>>
+  /\ UNCHANGED <<sem, slots, users, mode, cto, rto, arg, held, det, taken, ho, orphan, late, budget, poolGone, closeRet, panicked>>
   /\ Sched(t)
 
 \* the get() future is dropped while a call is suspended
 Cancel(t) ==
   /\ AllowCancel /\ susp[t]
   /\ susp' = [susp EXCEPT ![t] = FALSE] /\ Fail(t, "cancelled")
-  /\ UNCHANGED <<sem, slots, users, obj, mode, arg, gv>>
+  /\ UNCHANGED <<sem, slots, users, obj, mode, cto, rto, arg, gv>>
   /\ Sched(t)
 
 \* the create / recycle deadline passes while the call is suspended
 Expire(t) ==
   /\ susp[t] /\ HasRuntime
-  /\ \/ pc[t] = "create" /\ CreateTO = "finite" /\ Fail(t, "timeout_create")
-     \/ pc[t] = "recycle" /\ RecycleTO = "finite" /\ Fail(t, "timeout_recycle")
+  /\ \/ pc[t] = "create" /\ cto[t] = "finite" /\ Fail(t, "timeout_create")
+     \/ pc[t] = "recycle" /\ rto[t] = "finite" /\ Fail(t, "timeout_recycle")
   /\ susp' = [susp EXCEPT ![t] = FALSE]
-  /\ UNCHANGED <<sem, slots, users, obj, mode, arg, gv>>
+  /\ UNCHANGED <<sem, slots, users, obj, mode, cto, rto, arg, gv>>
   /\ Sched(t)
 
 \* lock; creating -= 1; size += 1; unlock
@@ -315,7 +316,7 @@ CSize(t) ==
   /\ IF FirstPcStage[1] = "fin"
      THEN Goto(t, "g_exit") /\ SetRes(t, "ok") /\ UNCHANGED cnt
      ELSE Goto(t, "pcreate") /\ cnt' = [cnt EXCEPT ![t] = 1] /\ UNCHANGED res
-  /\ UNCHANGED <<sem, idle, maxSize, lock, users, obj, mode, arg, susp, chain, ov, held, nextObj, alive, det, taken, ho, orphan, late, budget, poolGone, closeRet>>
+  /\ UNCHANGED <<sem, idle, maxSize, lock, users, obj, mode, cto, rto, arg, susp, chain, ov, held, nextObj, alive, det, taken, ho, orphan, late, budget, poolGone, closeRet>>
   /\ Sched(t)
 
 \* reservation guard: lock; creating -= 1; unlock
@@ -323,7 +324,7 @@ CUnres(t) ==
   /\ pc[t] = "c_unres" /\ lock = NoTask
   /\ creating' = creating - 1 /\ panicked' = (panicked \/ creating = 0)
   /\ Goto(t, "g_exit")
-  /\ UNCHANGED <<sem, idle, size, maxSize, lock, users, obj, mode, arg, cnt, susp, res, chain, ov, held, nextObj, alive, det, taken, ho, orphan, late, budget, poolGone, closeRet>>
+  /\ UNCHANGED <<sem, idle, size, maxSize, lock, users, obj, mode, cto, rto, arg, cnt, susp, res, chain, ov, held, nextObj, alive, det, taken, ho, orphan, late, budget, poolGone, closeRet>>
   /\ Sched(t)
 
 \* UnreadyObject::drop: lock; size -= 1; unlock; Manager::detach; object destroyed
@@ -332,7 +333,7 @@ UDrop(t) ==
   /\ size' = size - 1 /\ panicked' = (panicked \/ size = 0)
   /\ LetGo({obj[t]}) /\ obj' = [obj EXCEPT ![t] = NoObj]
   /\ Goto(t, IF res[t] = "none" THEN "g_pop" ELSE "g_exit")
-  /\ UNCHANGED <<sem, idle, creating, maxSize, lock, users, mode, arg, cnt, susp, res, chain, ov, held, nextObj, taken, ho, orphan, late, budget, poolGone, closeRet>>
+  /\ UNCHANGED <<sem, idle, creating, maxSize, lock, users, mode, cto, rto, arg, cnt, susp, res, chain, ov, held, nextObj, taken, ho, orphan, late, budget, poolGone, closeRet>>
   /\ Sched(t)
 
 \* leaving the acquisition loop: hand the object out, or drop the permit
@@ -342,14 +343,14 @@ GExit(t) ==
      THEN /\ held' = [held EXCEPT ![t] = @ \cup {obj[t]}] /\ ho' = [ho EXCEPT ![obj[t]] = @ + 1]
           /\ obj' = [obj EXCEPT ![t] = NoObj] /\ Goto(t, "idle") /\ UNCHANGED sem
      ELSE /\ SemRelease(1) /\ Goto(t, "x_users") /\ UNCHANGED <<held, ho, orphan, late, obj>>
-  /\ UNCHANGED <<slots, users, mode, arg, cnt, susp, res, chain, ov, nextObj, alive, det, taken, orphan, late, budget, poolGone, closeRet, panicked>>
+  /\ UNCHANGED <<slots, users, mode, cto, rto, arg, cnt, susp, res, chain, ov, nextObj, alive, det, taken, orphan, late, budget, poolGone, closeRet, panicked>>
   /\ Sched(t)
 
 \* users_guard: users.fetch_sub
 XUsers(t) ==
   /\ pc[t] = "x_users" /\ users' = users - 1 /\ panicked' = (panicked \/ users = 0)
   /\ Goto(t, "idle")
-  /\ UNCHANGED <<sem, slots, obj, mode, arg, cnt, susp, res, chain, ov, held, nextObj, alive, det, taken, ho, orphan, late, budget, poolGone, closeRet>>
+  /\ UNCHANGED <<sem, slots, obj, mode, cto, rto, arg, cnt, susp, res, chain, ov, held, nextObj, alive, det, taken, ho, orphan, late, budget, poolGone, closeRet>>
   /\ Sched(t)
 
 ----------------------------------------------------------------------------
@@ -363,13 +364,13 @@ StartReturn(t, o) ==
           /\ alive' = alive \ {o} /\ orphan' = orphan \cup {o} /\ UNCHANGED <<pc, obj>>
      ELSE /\ obj' = [obj EXCEPT ![t] = o] /\ Goto(t, "ret_users") /\ UNCHANGED <<alive, orphan>>
   /\ SetRes(t, "none")
-  /\ UNCHANGED <<sem, slots, users, mode, arg, cnt, susp, chain, ov, nextObj, det, taken, ho, late, budget, poolGone, closeRet, panicked>>
+  /\ UNCHANGED <<sem, slots, users, mode, cto, rto, arg, cnt, susp, chain, ov, nextObj, det, taken, ho, late, budget, poolGone, closeRet, panicked>>
   /\ Sched(t)
 
 RetUsers(t) ==
   /\ pc[t] = "ret_users" /\ users' = users - 1 /\ panicked' = (panicked \/ users = 0)
   /\ Goto(t, "ret_lock")
-  /\ UNCHANGED <<sem, slots, obj, mode, arg, cnt, susp, res, chain, ov, held, nextObj, alive, det, taken, ho, orphan, late, budget, poolGone, closeRet>>
+  /\ UNCHANGED <<sem, slots, obj, mode, cto, rto, arg, cnt, susp, res, chain, ov, held, nextObj, alive, det, taken, ho, orphan, late, budget, poolGone, closeRet>>
   /\ Sched(t)
 
 RetLock(t) ==
@@ -379,12 +380,12 @@ RetLock(t) ==
      ELSE /\ size' = size - 1 /\ panicked' = (panicked \/ size = 0)
           /\ LetGo({obj[t]}) /\ Goto(t, "idle") /\ UNCHANGED idle
   /\ obj' = [obj EXCEPT ![t] = NoObj]
-  /\ UNCHANGED <<sem, creating, maxSize, lock, users, mode, arg, cnt, susp, res, chain, ov, held, nextObj, taken, ho, orphan, late, budget, poolGone, closeRet>>
+  /\ UNCHANGED <<sem, creating, maxSize, lock, users, mode, cto, rto, arg, cnt, susp, res, chain, ov, held, nextObj, taken, ho, orphan, late, budget, poolGone, closeRet>>
   /\ Sched(t)
 
 RetAdd(t) ==
   /\ pc[t] = "ret_add" /\ SemRelease(1) /\ Goto(t, "idle")
-  /\ UNCHANGED <<slots, users, obj, mode, arg, cnt, susp, res, chain, ov, gv>>
+  /\ UNCHANGED <<slots, users, obj, mode, cto, rto, arg, cnt, susp, res, chain, ov, gv>>
   /\ Sched(t)
 
 ----------------------------------------------------------------------------
@@ -396,13 +397,13 @@ StartTake(t, o) ==
   /\ IF poolGone THEN orphan' = orphan \cup {o} /\ UNCHANGED <<pc, obj>>
      ELSE obj' = [obj EXCEPT ![t] = o] /\ Goto(t, "tk_users") /\ UNCHANGED orphan
   /\ SetRes(t, "none")
-  /\ UNCHANGED <<sem, slots, users, mode, arg, cnt, susp, chain, ov, nextObj, det, ho, late, poolGone, closeRet, panicked>>
+  /\ UNCHANGED <<sem, slots, users, mode, cto, rto, arg, cnt, susp, chain, ov, nextObj, det, ho, late, poolGone, closeRet, panicked>>
   /\ Sched(t)
 
 TkUsers(t) ==
   /\ pc[t] = "tk_users" /\ users' = users - 1 /\ panicked' = (panicked \/ users = 0)
   /\ Goto(t, "tk_lock")
-  /\ UNCHANGED <<sem, slots, obj, mode, arg, cnt, susp, res, chain, ov, held, nextObj, alive, det, taken, ho, orphan, late, budget, poolGone, closeRet>>
+  /\ UNCHANGED <<sem, slots, obj, mode, cto, rto, arg, cnt, susp, res, chain, ov, held, nextObj, alive, det, taken, ho, orphan, late, budget, poolGone, closeRet>>
   /\ Sched(t)
 
 \* lock; add_permits := size <= max_size; size -= 1; unlock; (no permit: detach at once)
@@ -412,13 +413,13 @@ TkLock(t) ==
   /\ IF size <= maxSize
      THEN Goto(t, "tk_add") /\ UNCHANGED <<det, obj>>
      ELSE /\ det' = [det EXCEPT ![obj[t]] = @ + 1] /\ obj' = [obj EXCEPT ![t] = NoObj] /\ Goto(t, "idle")
-  /\ UNCHANGED <<sem, idle, creating, maxSize, lock, users, mode, arg, cnt, susp, res, chain, ov, held, nextObj, alive, taken, ho, orphan, late, budget, poolGone, closeRet>>
+  /\ UNCHANGED <<sem, idle, creating, maxSize, lock, users, mode, cto, rto, arg, cnt, susp, res, chain, ov, held, nextObj, alive, taken, ho, orphan, late, budget, poolGone, closeRet>>
   /\ Sched(t)
 
 TkAdd(t) ==
   /\ pc[t] = "tk_add" /\ SemRelease(1)
   /\ det' = [det EXCEPT ![obj[t]] = @ + 1] /\ obj' = [obj EXCEPT ![t] = NoObj] /\ Goto(t, "idle")
-  /\ UNCHANGED <<slots, users, mode, arg, cnt, susp, res, chain, ov, held, nextObj, alive, taken, ho, orphan, late, budget, poolGone, closeRet, panicked>>
+  /\ UNCHANGED <<slots, users, mode, cto, rto, arg, cnt, susp, res, chain, ov, held, nextObj, alive, taken, ho, orphan, late, budget, poolGone, closeRet, panicked>>
   /\ Sched(t)
 
 ----------------------------------------------------------------------------
@@ -434,7 +435,7 @@ Drain(k) ==
 StartResize(t, n) ==
   /\ pc[t] = "idle" /\ ~poolGone /\ n \in ResizeTargets /\ Spend
   /\ Goto(t, "rs_lock") /\ arg' = [arg EXCEPT ![t] = n] /\ SetRes(t, "none")
-  /\ UNCHANGED <<sem, slots, users, obj, mode, cnt, susp, chain, ov, held, nextObj, alive, det, taken, ho, orphan, late, poolGone, closeRet, panicked>>
+  /\ UNCHANGED <<sem, slots, users, obj, mode, cto, rto, cnt, susp, chain, ov, held, nextObj, alive, det, taken, ho, orphan, late, poolGone, closeRet, panicked>>
   /\ Sched(t)
 
 \* lock; closed? -> return; max_size = n; (equal: unlock, return)
@@ -446,7 +447,7 @@ RsLock(t) ==
           /\ IF arg[t] < maxSize
              THEN Goto(t, "rs_forget") /\ cnt' = [cnt EXCEPT ![t] = maxSize - arg[t]]
              ELSE Goto(t, "rs_grow") /\ cnt' = [cnt EXCEPT ![t] = arg[t] - maxSize]
-  /\ UNCHANGED <<sem, idle, size, creating, users, obj, mode, arg, susp, res, chain, ov, gv>>
+  /\ UNCHANGED <<sem, idle, size, creating, users, obj, mode, cto, rto, arg, susp, res, chain, ov, gv>>
   /\ Sched(t)
 
 \* one iteration of the permit-retiring loop; the last one also drains and unlocks
@@ -458,19 +459,19 @@ RsForget(t) ==
      ELSE /\ permits' = IF permits > 0 THEN permits - 1 ELSE permits
           /\ UNCHANGED <<closed, waitq, handed>>
           /\ Drain(Surplus) /\ lock' = NoTask /\ Goto(t, "idle") /\ cnt' = [cnt EXCEPT ![t] = 0]
-  /\ UNCHANGED <<creating, maxSize, users, obj, mode, arg, susp, res, chain, ov, held, nextObj, taken, ho, orphan, late, budget, poolGone, closeRet, panicked>>
+  /\ UNCHANGED <<creating, maxSize, users, obj, mode, cto, rto, arg, susp, res, chain, ov, held, nextObj, taken, ho, orphan, late, budget, poolGone, closeRet, panicked>>
   /\ Sched(t)
 
 RsGrow(t) ==
   /\ pc[t] = "rs_grow" /\ SemRelease(cnt[t]) /\ lock' = NoTask /\ Goto(t, "idle")
   /\ cnt' = [cnt EXCEPT ![t] = 0]
-  /\ UNCHANGED <<idle, size, creating, maxSize, users, obj, mode, arg, susp, res, chain, ov, gv>>
+  /\ UNCHANGED <<idle, size, creating, maxSize, users, obj, mode, cto, rto, arg, susp, res, chain, ov, gv>>
   /\ Sched(t)
 
 StartClose(t) ==
   /\ AllowClose /\ pc[t] = "idle" /\ ~poolGone /\ Spend
   /\ Goto(t, "cl_lock") /\ SetRes(t, "none")
-  /\ UNCHANGED <<sem, slots, users, obj, mode, arg, cnt, susp, chain, ov, held, nextObj, alive, det, taken, ho, orphan, late, poolGone, closeRet, panicked>>
+  /\ UNCHANGED <<sem, slots, users, obj, mode, cto, rto, arg, cnt, susp, chain, ov, held, nextObj, alive, det, taken, ho, orphan, late, poolGone, closeRet, panicked>>
   /\ Sched(t)
 
 \* lock; semaphore.close(); max_size = 0; drop and detach every idle object; unlock
@@ -480,18 +481,18 @@ ClLock(t) ==
   /\ maxSize' = 0 /\ Drain(Len(idle))
   /\ closeRet' = TRUE /\ Goto(t, "idle")
   /\ late' = [u \in Tasks |-> late[u] \/ pc[u] \in {"g_users", "g_acq", "g_wait"}]
-  /\ UNCHANGED <<creating, lock, users, obj, mode, arg, cnt, susp, res, chain, ov, held, nextObj, taken, ho, orphan, budget, poolGone, panicked>>
+  /\ UNCHANGED <<creating, lock, users, obj, mode, cto, rto, arg, cnt, susp, res, chain, ov, held, nextObj, taken, ho, orphan, budget, poolGone, panicked>>
   /\ Sched(t)
 
 StartRetain(t) ==
   /\ AllowRetain /\ pc[t] = "idle" /\ ~poolGone /\ Spend
   /\ Goto(t, "rt_status") /\ SetRes(t, "none")
-  /\ UNCHANGED <<sem, slots, users, obj, mode, arg, cnt, susp, chain, ov, held, nextObj, alive, det, taken, ho, orphan, late, poolGone, closeRet, panicked>>
+  /\ UNCHANGED <<sem, slots, users, obj, mode, cto, rto, arg, cnt, susp, chain, ov, held, nextObj, alive, det, taken, ho, orphan, late, poolGone, closeRet, panicked>>
   /\ Sched(t)
 
 RtStatus(t) ==
   /\ pc[t] = "rt_status" /\ lock = NoTask /\ Goto(t, "rt_lock")
-  /\ UNCHANGED <<sem, slots, users, obj, mode, arg, cnt, susp, res, chain, ov, gv>>
+  /\ UNCHANGED <<sem, slots, users, obj, mode, cto, rto, arg, cnt, susp, res, chain, ov, gv>>
   /\ Sched(t)
 
 \* lock; walk the idle queue; every object the predicate rejects is removed, detached
@@ -504,7 +505,7 @@ RtWalk(t, keep) ==
      /\ det' = [o \in Objs |-> IF o \in rm THEN det[o] + 1 ELSE det[o]]
      /\ taken' = taken \cup rm /\ alive' = alive \ rm
   /\ Goto(t, "idle")
-  /\ UNCHANGED <<sem, creating, maxSize, lock, users, obj, mode, arg, cnt, susp, res, chain, ov, held, nextObj, ho, orphan, late, budget, poolGone, closeRet, panicked>>
+  /\ UNCHANGED <<sem, creating, maxSize, lock, users, obj, mode, cto, rto, arg, cnt, susp, res, chain, ov, held, nextObj, ho, orphan, late, budget, poolGone, closeRet, panicked>>
   /\ Sched(t)
 
 \* the last Pool handle is dropped (no operation in progress): idle objects are
@@ -516,7 +517,7 @@ DropPool ==
 
 ----------------------------------------------------------------------------
 Step(t) ==
-  \/ \E m \in GetModes : StartGet(t, m)
+  \/ \E m \in GetModes : \E c \in CreateTO : \E r \in RecycleTO : StartGet(t, m, c, r)
   \/ GUsers(t) \/ GAcq(t) \/ GWaitPoll(t) \/ GWaitCancel(t) \/ GWaitExpire(t) \/ GPop(t)
   \/ \E out \in {"ok", "err", "panic", "susp"} : Call(t, out)
   \/ \E out \in {"ok", "err", "panic"} : Resume(t, out)
